@@ -108,6 +108,7 @@ Definition transfer_impl (p : params) (s : state) (from to amt : N) : rc * state
     let f := acct s from in
     if from =? to then
       if general f <? amt then (RFail EInsufficientStaking, s) else (ROk, set_acct from f s)
+    else if reserved p to then (RFail EOther, s)   (* state.Account rejects reserved addresses (state.go:221) *)
     else
       let t := acct s to in
       match qmove (general t) (general f) amt with
@@ -137,6 +138,7 @@ Definition add_escrow (p : params) (s : state) (from escrow amt : N) (gas_ok : b
   else if amt <? p_min_deleg p then (RFail EUnderMinDeleg, s)
   else if reserved p from then (RFail EForbidden, s)
   else if negb (from =? escrow) && p_disable_deleg p then (RFail EForbidden, s)
+  else if negb (from =? escrow) && reserved p escrow then (RFail EOther, s)   (* state.Account, state.go:221 *)
   else
     let f := acct s from in
     let t := acct s escrow in
@@ -154,6 +156,7 @@ Definition reclaim_escrow (p : params) (s : state) (to escrow shares epoch : N) 
   else if negb gas_ok then (RFail EOutOfGas, s)
   else if reserved p to then (RFail EForbidden, s)
   else if negb (to =? escrow) && p_disable_deleg p then (RFail EForbidden, s)
+  else if negb (to =? escrow) && reserved p escrow then (RFail EOther, s)   (* state.Account, state.go:221 *)
   else
     let e := acct s escrow in
     let d := dget s escrow to in
@@ -537,3 +540,21 @@ Definition run_case (c : kcase) : list rc * state :=
 (* used with [mismatches run_case case_eqb] *)
 Definition case_eqb (got : list rc * state) (want : kout) : bool :=
   list_eqb rc_eqb (fst got) (fst want) && state_matches (snd got) (snd want).
+
+(* case runner in the shape [mismatches] wants: input = (case, expected), output = verdict *)
+Definition run_check (ce : kcase * kout) : bool := case_eqb (run_case (fst ce)) (snd ce).
+(* what the model computes on a case (shown by the driver for a disagreeing case) *)
+Definition run_debug (ce : kcase * kout) := run_case (fst ce).
+
+(* diagnosis of a disagreeing case: model result classes, the account rows the
+   model computes differently (address, model fields), and which of
+   delegations / debonding delegations / scalars agree *)
+Definition run_diag (ce : kcase * kout) :=
+  let '(rcs, s) := run_case (fst ce) in
+  let d := snd (snd ce) in
+  (rcs,
+   map (fun r : arow => let x := acct s (fst (fst r)) in
+          (fst (fst r), [general x; nonce x; bal (active x); tsh (active x); bal (debonding x); tsh (debonding x)], allow x))
+       (filter (fun r => negb (arow_matches s r)) (d_accts d)),
+   (map_matches k2_eqb (deleg s) (d_deleg d), map_matches k3_eqb (debdeleg s) (d_deb d)),
+   [total_supply s; common_pool s; last_block_fees s; gov_deposits s; fee_acc s]).
